@@ -57,9 +57,14 @@ Proof. exact invalid_rejected. Qed.
 Print Assumptions C19_invalid_rejected.
 
 (* only holders of the change permission or passed proposals alter them *)
-Theorem C19_message_needs_permission : forall ps new, msg_set_all false ps new = None.
+Theorem C19_message_needs_permission : forall recs ps new, msg_set_all false recs ps new = None.
 Proof. exact msg_needs_permission. Qed.
 Print Assumptions C19_message_needs_permission.
+
+Theorem C19_message_write_keeps_valid :
+  forall recs ps new ps', msg_set_all true recs ps new = Some ps' -> ps' = new /\ validate ps' = true.
+Proof. exact msg_write_valid. Qed.
+Print Assumptions C19_message_write_keeps_valid.
 
 Theorem C19_proposal_goes_through_validating_setter :
   forall recs ps code v ps', apply_proposal recs ps code v = Some ps' -> set_code recs ps code v = Some ps'.
